@@ -42,9 +42,23 @@ def build(ctx):
                                             descr={"ring bytes": ring, "queued message sizes": list(sh), "lookahead has seen": la, "operation": OPS[op], "read index": "symbolic (any multiple of 4 in the ring)" if rfix is None else rfix,
                                                    "payloads": "symbolic"}))
                     qq.prepare = (lambda name_, defs_: (lambda q_: q_.sources.__setitem__(0, ctx.ir_translate(name_, h, cxx=True, defines=inc + defs_))))(name, defs)
+    # ---- schedules: resumable step functions, symbolic interleaving at atomic accesses and buffer copies ----
+    hs = os.path.join(vlib.HARN, "C06", "h_sched.cpp")
+    # NOT RUN: the smallest schedule query (1 concurrent write, 2 polls, 3 preemptions) did not finish in 600 s; set
+    # VERIF_C06_SCHED=1 to try them.  The sequential part above is what the check decides.
+    sched = [(0, 8, 12, 3, 1), (2, 12, 12, 3, 1), (2, 16, 8, 2, 2)] if os.environ.get("VERIF_C06_SCHED") else []
+    for pre, w0, w1, yields, wops in sched:
+        defs = ["-DPRE=%d" % pre, "-DW0=%d" % w0, "-DW1=%d" % w1, "-DYIELDS=%d" % yields, "-DWOPS=%d" % wops]
+        name = "sched-pre%d-w%d_%d-y%d-o%d" % (pre, w0, w1, yields, wops)
+        qq = ctx.add(vlib.Query(name, ["@IR@"] + rt, defines=defs, unwind=2 * yields + 40, objbits=12, native_sources=["@IR@", os.path.join(vlib.STUBS, "cxxrt_native.c"), vlib.unit("rtosc")],
+                                native_cxx=False, native_flags=["-DND_NO_SCHED"], unwindset=["rtosc_message_ring_length.%d:10" % k for k in range(8)] + ["bundle_ring_length.0:4"],
+                                descr={"threads": ("writer: raw_write(m0); raw_write(m1)" if wops == 2 else "m0 queued beforehand; writer: raw_write(m1)") + "   reader: 2 x (hasNext ? read)", "message sizes": [w0, w1], "ring pre-positioned by": "%d write/read pairs of 12 bytes" % pre,
+                                       "schedule": "symbolic: at most %d preemptions at atomic index accesses / buffer copies, any order of the two threads" % yields, "payloads": "symbolic"}))
+        qq.prepare = (lambda name_, defs_: (lambda q_: (q_.sources.__setitem__(0, ctx.ir_translate(name_, hs, cxx=True, defines=inc + defs_, roots=("harness", "writer_thread", "reader_thread"), resumable=("writer_thread", "reader_thread"))),
+                                                        q_.native_sources.__setitem__(0, q_.sources[0]))))(name, defs)
     ctx.bounds = {"ring": "32 bytes (MaxMsg 16 x 2) and 36 bytes (MaxMsg 12 x 3, not a power of two)", "queue": "0..3 framed messages of 8/12/16 bytes (all fillings that fit)", "read index": "all positions", "operations": "one step from every such state"}
     ctx.assumptions = ["representation invariant of the pre-state: indices are multiples of 4 inside the ring, queued messages are complete OSC messages laid out from the read index, the lookahead index lies on a message boundary between read and write",
                        "sequential consistency; ONE thread at a time: interleavings of writer and reader inside an operation are NOT explored by this check"]
     ctx.stubs = ["C++ runtime: stubs/cxxrt.c (operator new as typed pool)"]
-    ctx.outside = ["interleavings at the granularity of atomic accesses (the schedules quantifier of C06): not encoded -- cbmc's thread support rejects the translated code and the planned step-function sequentialisation was not built",
+    ctx.outside = ["interleavings at the granularity of atomic accesses (the schedules quantifier of C06): a step-function sequentialisation exists (tools/ll2c.py --resumable, harness/C06/h_sched.cpp) but its smallest query did not finish in 600 s, so it is not part of the check",
                    "ThreadLink::write (C++ varargs)", "rings larger than 32 bytes, messages other than 8/12/16/24 bytes"]
